@@ -634,7 +634,11 @@ func checkGroupBy(t *rapid.T, tr *trace, qf qframe.QFrame, src *obs.Frame, model
 			fns = []string{"count", "user"}
 		}
 		for _, fn := range fns {
-			as := "a" + strconv.Itoa(n)
+			// any name the caller likes, also ones New would not take for a column
+			as := []string{"a", "a", "a", "$a", "'a'", "a b", "\"a\"", "é"}[(n+len(tr.Keys))%8] + strconv.Itoa(n)
+			if n%8 == 4 {
+				as += "'"
+			}
 			n++
 			e := expect{as: as, col: name, typ: typ, fn: fn}
 			exps = append(exps, e)
